@@ -1,4 +1,4 @@
-\* Crash_faithful.cfg1
+\* the code as it was at the pinned commit (every switch FALSE): TLC must find a violation (H3 first); the check generates the faithful cfg from the switches it probes on the code
 CONSTANTS
   MaxH = 3
   MaxVer = 2
